@@ -13,6 +13,7 @@ EXPLANATION = (
     ' The admissible estimates (row maxima BT/BD, outside tables) and the call-local id-keyed containers are part of this check as well.'
     ' Third round: every accepted chart entry is expanded unconditionally (search:expansion-unconditional).'
     ' Fourth round: the span rule of unary steps (chains included, whatever nbest is) and the admission rule of supertags.'
+    ' Fifth round: the chunking / in-order gather rules of the pooled path (shared with C11).'
 )
 TRUSTED = ['clang-14 front end', 'CPython ast', 'sa/pyx.py normaliser', 'rule table DESIGN.md C10']
 
